@@ -22,7 +22,8 @@ ID = "C02"
 LEVEL = "exploration"
 RULE = ("case = one program; classes: call (built-in x receiver x argument vector x arity), op (operator x type pair), "
         "rand (random ill-typed expression tree), redef (prelude type redefined, then a battery of built-in uses), "
-        "ctl (generated control flow: break / continue / return under if / match in while / for loops with earlier and later "
+        "idx (every built-in with Int parameters x small ints around the receiver's length: -1, 0, 1, len-1, len, len+1, len+2, 2len+3 "
+        "for lengths 0, 1, 3, 8, ASCII and non-ASCII, all positions incl. from > to), ctl (generated control flow: break / continue / return under if / match in while / for loops with earlier and later "
         "sibling loops, nested loops, in functions, closures and at the toplevel), depth (recursion 10^3..10^5 frames, value nesting 10^2..10^5 built / printed / compared / dropped, wide values), "
         "run (the same programs through `garden run FILE`); a case is non-trivial when the program parsed and was "
         "evaluated; distinct key = (class, built-in or operator, argument runtime types, outcome template)")
@@ -107,8 +108,10 @@ def gen_cases(tier, seed):
     ctl = [dict(c, t="ctl") for c in b_ctrl.enumerate_programs(full=(tier != "quick"))]
     random.Random(seed + 9).shuffle(ctl)
     ctl = ctl[:6000]
-    gens = [iter(corpus), iter(calls), iter(ops), _redef_cases(), _depth_cases(tier), iter(ctl)]
-    for c in _roundrobin(gens, [3, 6, 8, 1, 1, 5]):
+    idx = [{"t": "multi", "cls": "idx", "fn": label, "inputs": srcs}
+           for label, srcs in H.index_cases(v, random.Random(seed + 11))]
+    gens = [iter(corpus), iter(idx), iter(calls), iter(ops), _redef_cases(), _depth_cases(tier), iter(ctl)]
+    for c in _roundrobin(gens, [3, 2, 5, 7, 1, 1, 5]):
         yield c
     yield {"_marker": "systematic", "builtins": len(v), "call_cases": len(calls), "operator_cases": len(ops),
            "space": "every built-in x (receivers, each position x pool, arities n-1..n+2); 21 operators and += -= x pool^2; "
@@ -202,6 +205,24 @@ def judge_single(case, res):
     return {"status": "held", "key": key}
 
 
+def judge_multi(case, pairs):
+    """Many inputs of one built-in in the shared session: any crash is the verdict."""
+    worst = None
+    ocs = set()
+    for src, o in pairs:
+        j = judge_single({"t": "rand", "src": src}, o)
+        if j["status"] == "violated":
+            j["detail"]["fn"] = case["fn"]
+            return j
+        if j["status"] == "inconclusive":
+            worst = worst or j
+        else:
+            ocs.add(outcome(o))
+    if worst:
+        return worst
+    return {"status": "held", "key": "%s %s %d inputs: %s" % (case["cls"], case["fn"], len(pairs), "|".join(sorted(ocs))[:120])}
+
+
 def _subst(s, scratch):
     return s.replace("@S@", scratch)
 
@@ -213,14 +234,24 @@ def run_batch(cases):
         os.makedirs(work)
         pre = [_subst(p, work) for p in H.PREAMBLE]
         # ---- single-input cases share one session
-        idx = [i for i, c in enumerate(cases) if c["t"] in ("call", "op", "rand", "ctl")]
+        idx = [i for i, c in enumerate(cases) if c["t"] in ("call", "op", "rand", "ctl", "multi")]
         if idx:
-            srcs = [_subst(cases[i]["src"], work) for i in idx]
+            srcs, owner = [], []
+            for i in idx:
+                for s in (cases[i]["inputs"] if cases[i]["t"] == "multi" else [cases[i]["src"]]):
+                    srcs.append(_subst(s, work))
+                    owner.append(i)
             for s in srcs:
                 _guard(s, work)
             outs = b_sess.eval_many(srcs, preamble=pre, timeout=60, cwd=work, max_timeouts=3)
-            for i, o in zip(idx, outs):
-                results[i] = judge_single(cases[i], o)
+            multi = {}
+            for i, s, o in zip(owner, srcs, outs):
+                if cases[i]["t"] == "multi":
+                    multi.setdefault(i, []).append((s, o))
+                else:
+                    results[i] = judge_single(cases[i], o)
+            for i, pairs in multi.items():
+                results[i] = judge_multi(cases[i], pairs)
         # ---- sequences in a fresh process each
         for i, c in enumerate(cases):
             if c["t"] == "seq":
